@@ -22,16 +22,16 @@ CLAIMED = {
    text='Per generated program every raising position x exception class is enumerated (plus seeded pairs and repeated renders of the same cooked template); oracle is the final outcome and the ordered history of part markers predicted by a reference interpreter whose control flow is Python\'s own.',
    note='Trusts the reference interpreter for the try/raise/return sub-language; non-Exception BaseExceptions and errors inside a raise body other than dtml-return are not asserted.'),
  'C17': dict(engine='D-lifecycle', level='exploration', ref='4 (C17)',
-   technique='deterministic simulation of an object lifecycle: seeded histories of render / failed render / restart (pickle) / deepcopy / munge / cook / var / file change / file fault on an in-memory file system, checked step by step against a freshly constructed template',
+   technique='deterministic simulation of an object lifecycle: seeded histories of render / failed render / restart (pickle) / deepcopy / munge / munge racing with a render (two threads under the seeded scheduler) / cook / var / file change / file fault on an in-memory file system, checked step by step against a freshly constructed template',
    text='Seeded exploration of operation-and-fault histories; the reference is the real code itself on a fresh template built from the modelled (class, source, defaults, vars, file contents) tuple, so only history-dependent behaviour can differ.',
    note='Process restart is modelled as a pickle round trip; the file system is an in-memory fake bound to DT_String.os/open.'),
  'C18': dict(engine='B-scheduler', level='exploration', ref='4 (C18)',
-   technique='deterministic simulation of caller threads: real threads run one at a time under a seeded baton-passing scheduler with sys.settrace line pre-emption inside the package and simulated locks; per-thread results compared with solo runs',
-   text='Seeded search over schedules (single and double pre-emption at every profile line, PCT, random walk, write-biased) of 2-3 threads on one shared template; differential oracle against the same call run alone on a fresh template in a forked child process.',
-   note='Pre-emption granularity is the source line plus a yield inside every scripted call-back (opcode tracing segfaults CPython 3.12.1 and is not used); C-level atomicity under the GIL is assumed.'),
+   technique='deterministic simulation of caller threads: real threads run one at a time under a seeded baton-passing scheduler with sys.settrace pre-emption inside the package (every line; in a fifth of the cases also in front of every attribute / item store instruction) and simulated locks; per-thread results compared with solo runs',
+   text='Seeded search over schedules (single and double pre-emption at every profile line, PCT, random walk, write-biased, race to the lock, hand-over after a write, split of a line in front of a store) of 2-3 threads on one shared template; differential oracle against the same call run alone on a fresh template in a forked child process.',
+   note='Pre-emption granularity is the source line plus a yield inside every scripted call-back, and in store mode (20 % of the cases) the instruction in front of every attribute / item store; tracing every opcode of every frame crashes CPython 3.12.1 and is not used; C-level atomicity under the GIL is assumed.'),
  'C20': dict(engine='C-browser', level='exploration', ref='4 (C20)',
    technique='deterministic simulation of browser + network against the stateless dtml-tree server: seeded click histories with reload / stale-link / lost-cookie faults, checked against a set-of-expanded-paths model and page-cookie consistency',
-   text='Seeded exploration of tree shapes x id alphabets x click histories x network faults; invariants checked after every response (codec round trip, page == state in cookie, one correct link per node, state evolution against a set model).',
+   text='Seeded exploration of tree shapes x id alphabets x click histories x network faults; invariants checked after every response (codec round trip, page == state in cookie, one correct link per node, state evolution against a set model). One listed known finding (an id holding a high surrogate directly followed by a low one does not survive the JSON codec).',
    note='Rows and links are located by body markers and the tree-[ec]=TOKEN pattern only; truncated or corrupted cookies are not injected.'),
 }
 NA = {
@@ -77,13 +77,13 @@ m = {
  'engines': [
    {'name': 'A-environment', 'path': 'sim/env.py', 'serves_properties': ['C08', 'C09', 'C14'], 'kind_free_text': 'scripted namespace call-backs (sites) with per-invocation responses and fault plans; DTML program generator; reference interpreter'},
    {'name': 'A-stream', 'path': 'sim/c12.py', 'serves_properties': ['C12'], 'kind_free_text': 'simulated sequence producers with pull counters and faults'},
-   {'name': 'B-scheduler', 'path': 'sim/sched.py', 'serves_properties': ['C18'], 'kind_free_text': 'seeded baton-passing scheduler for real threads, line-level pre-emption via sys.settrace, simulated locks'},
+   {'name': 'B-scheduler', 'path': 'sim/sched.py', 'serves_properties': ['C17', 'C18'], 'kind_free_text': 'seeded baton-passing scheduler for real threads, line-level and store-instruction pre-emption via sys.settrace, simulated locks (C17 uses it for its munge_race operation)'},
    {'name': 'C-browser', 'path': 'sim/c20.py', 'serves_properties': ['C20'], 'kind_free_text': 'browser, cookie jar and faulty network against the real dtml-tree tag'},
    {'name': 'D-lifecycle', 'path': 'sim/c17.py', 'serves_properties': ['C17'], 'kind_free_text': 'operation/fault histories with pickle restart and in-memory file system against a fresh-template reference'},
  ],
  'checks': checks,
  'not_applicable': na,
- 'notes': 'All checks: ./check <property> quick|thorough (cwd /verif); exit 0 held, 1 VIOLATION (replay file under replays/), 2 harness error. VERIF_SEED selects the base seed. Fix commits in /repo: 2d359e1 72e22ca e754aab c0834ce c2d6673 (see KNOWN_FINDINGS.txt). Seeded defects used for sensitivity are under seeded/ (172 confirmed changes, DESIGN.md 12.2), behaviour-preserving edits that must stay green under benign/; ./check selftest determinism|sensitivity re-run both catalogues.',
+ 'notes': 'All checks: ./check <property> quick|thorough (cwd /verif); exit 0 held, 1 VIOLATION (replay file under replays/), 2 harness error. VERIF_SEED selects the base seed. Fix commits in /repo: 2d359e1 72e22ca e754aab c0834ce c2d6673 (see KNOWN_FINDINGS.txt). Seeded defects used for sensitivity are under seeded/ (193 confirmed changes, DESIGN.md 12.2), behaviour-preserving edits that must stay green under benign/; ./check selftest determinism|sensitivity re-run both catalogues.',
 }
 json.dump(m, open(V + '/MANIFEST.json', 'w'), indent=1)
 print('claimed:', [c['property_id'] for c in checks])
